@@ -504,7 +504,7 @@ func c14Mapping(c *Check) {
 		}
 		authCalls := lf.Find(func(n ast.Node) bool {
 			for _, call := range callsAt(n) {
-				if isCall(ci, call, "~/"+authRel+".SASLAuth.AuthPlain") {
+				if c14IsAuth(c, ci, call) {
 					return true
 				}
 			}
@@ -664,7 +664,7 @@ func c14Gate(c *Check) {
 					if id, ok := call.Fun.(*ast.Ident); ok && id.Name == "successCb" {
 						cbs = append(cbs, pt)
 					}
-					if isCall(ci, call, "~/"+authRel+".SASLAuth.AuthPlain") {
+					if c14IsAuth(c, ci, call) {
 						auths = append(auths, pt)
 					}
 				}
@@ -678,7 +678,7 @@ func c14Gate(c *Check) {
 				return false
 			}
 			for _, call := range callsAt(auths[0].Node()) {
-				if isCall(ci, call, "~/"+authRel+".SASLAuth.AuthPlain") {
+				if c14IsAuth(c, ci, call) {
 					eo := errVarAssigned(ci, auths[0].Node(), call)
 					if eo == nil {
 						okAll = false
@@ -691,4 +691,36 @@ func c14Gate(c *Check) {
 		})
 		c.Hold("R7", "CreateSASL:callback-after-success", cs.FI.Decl.Pos(), okAll && n >= 2, "a SASL mechanism can invoke the success callback (which records the authenticated user) without a successful authentication")
 	}
+}
+
+
+// c14IsAuth: the call authenticates – SASLAuth.AuthPlain itself, or a function of the auth package that returns nil
+// only as the nil result of SASLAuth.AuthPlain (`checkCreds`).
+func c14IsAuth(c *Check, info *types.Info, call *ast.CallExpr) bool {
+	base := calling("~/" + authRel + ".SASLAuth.AuthPlain")
+	if base(info, call) {
+		return true
+	}
+	fn := callee(info, call)
+	if fn == nil || fn.Pkg() == nil || !strings.HasSuffix(fn.Pkg().Path(), "/"+authRel) {
+		return false
+	}
+	d := c.P.DeclOf(fn)
+	if d == nil || d.Decl.Body == nil {
+		return false
+	}
+	sig := fn.Type().(*types.Signature)
+	if sig.Results().Len() != 1 || !isErrorType(sig.Results().At(0).Type()) {
+		return false
+	}
+	msgs, n := c.CtxOf(d).SuccessOnlyFrom(base)
+	if n == 0 {
+		return false
+	}
+	for _, m := range msgs {
+		if m != "" {
+			return false
+		}
+	}
+	return true
 }
